@@ -27,6 +27,7 @@ func main() {
 	maxSteps := flag.Int("maxsteps", 5000000, "instruction budget per path")
 	loopBound := flag.Int("loop", 5000, "per-loop-head iteration bound")
 	solverMs := flag.Int("solverms", 60000, "solver timeout per query (ms)")
+	branchMs := flag.Int("branchms", 5000, "solver timeout for branch feasibility queries (ms); unknown = branch kept")
 	solverCmd := flag.String("solver", "z3 -in", "solver command line")
 	witness := flag.Int("witness", 20, "number of path witnesses to produce")
 	out := flag.String("out", "", "result JSON file")
@@ -55,7 +56,7 @@ func main() {
 	o.LoadSeconds = env.loadSeconds
 	cfg := &ExploreConfig{
 		Workers: *workers, MaxPaths: *maxPaths, MaxSeconds: *maxSec,
-		Run:        RunConfig{MaxSteps: *maxSteps, LoopBound: *loopBound, SolverMs: *solverMs, Trace: *trace},
+		Run:        RunConfig{MaxSteps: *maxSteps, LoopBound: *loopBound, SolverMs: *solverMs, BranchMs: *branchMs, Trace: *trace},
 		SolverCmd:  strings.Fields(*solverCmd),
 		WitnessMax: *witness, SolverLog: *slog,
 	}
